@@ -57,7 +57,33 @@ def formula_candidates(f):
             yield _replace_at(f, path, ('var', 0))
 
 
+def dense_candidates(c):
+    sigs = c['sigs']
+    for i, s in enumerate(sigs):
+        if len(s) > 1:
+            for j in range(len(s)):
+                d = dict(c)
+                d['sigs'] = [list(x) for x in sigs]
+                d['sigs'][i] = s[:j] + s[j + 1:]
+                yield d
+    for i, s in enumerate(sigs):
+        for j, (t, v) in enumerate(s):
+            for nv in (0, 1, -1):
+                if v != nv and abs(nv) <= abs(v):
+                    d = dict(c)
+                    d['sigs'] = [[list(p) for p in x] for x in sigs]
+                    d['sigs'][i][j][1] = nv
+                    yield d
+                    break
+
+
 def data_candidates(c):
+    if 'sigs' in c:
+        for d in dense_candidates(c):
+            yield d
+        return
+    if 'cols' not in c:
+        return
     n = c['n']
     if n > 1:
         for m in sorted({1, n // 2, n - 1}):
